@@ -220,9 +220,19 @@ def if_convert(func):
     code = compile(tree, inspect.getsourcefile(func) or "<symx>", "exec")
     exec(code, g, ns)
     new = ns[fdef.name]
+    _codes[func] = (func.__code__, new.__code__)
     func.__code__ = new.__code__
     _converted[func] = conv.count
     return conv.count
+
+
+_codes = {}
+
+
+def set_ifconv(on):
+    """Switch every converted function between its original and its if-converted code object."""
+    for f, (orig, new) in _codes.items():
+        f.__code__ = new if on else orig
 
 
 def install_ifconv():
